@@ -17,6 +17,7 @@ import (
 
 	"github.com/ipfs/go-cid"
 	cidlink "github.com/ipld/go-ipld-prime/linking/cid"
+	"github.com/ipni/go-libipni/announce"
 	"github.com/ipni/go-libipni/dagsync"
 	"github.com/libp2p/go-libp2p/core/peer"
 
@@ -42,6 +43,7 @@ type Scenario struct {
 	LateReg   bool  `json:"latereg"`   // listeners may be registered after Close has started
 	Readers   bool  `json:"readers"`   // listeners are read by fast and slow readers during the run (otherwise: stalled, read at the end)
 	Resync    bool  `json:"resync"`    // every other explicit sync is a resync (WithAdsResync): the chain is reported again, the head recorded and notified again
+	Deny      bool  `json:"deny"`      // each head is first announced while the receiver's allow filter refuses its publisher (nothing may come of it), then allowed
 	HookSync  bool  `json:"hooksync"`  // the block hook of the first explicit sync starts an explicit sync of another publisher and waits for it
 	Idle      int   `json:"idle"`      // > 0: the idle handler TTL is 2 ms and the idle handler cleaner runs this many times at random points
 	Seed      int64 `json:"seed"`
@@ -95,8 +97,10 @@ type run struct {
 	faultsLeft int
 	frng       *rand.Rand
 	xmu        sync.Mutex
-	explicitG  map[int64]bool // goroutines running an explicit sync
-	nested     bool           // the nested sync has been started
+	explicitG  map[int64]bool   // goroutines running an explicit sync
+	denied     map[peer.ID]bool // publishers the allow filter refuses at the moment
+	deniedOnce map[[2]int]bool  // heads already announced once while refused
+	nested     bool             // the nested sync has been started
 }
 
 // NestedPub is the publisher synced from inside a block hook (Scenario.HookSync); it is never announced.
@@ -216,7 +220,7 @@ func (r *run) cleanPasses() string {
 // Execute runs one scenario and returns the trace plus a divergence (hang etc.) if the run itself failed.
 func Execute(sc Scenario, pubs []*chain.Pub) (log []gate.Event, key, detail string) {
 	r := &run{sc: sc, s: gate.New(sc.Seed), pubs: pubs, dst: lsys.NewStore(), announced: make([]int, len(pubs)),
-		failed: map[[2]int]bool{}, explicitG: map[int64]bool{}, faultsLeft: sc.Faults, frng: rand.New(rand.NewSource(sc.Seed ^ 0x5eed))}
+		failed: map[[2]int]bool{}, explicitG: map[int64]bool{}, denied: map[peer.ID]bool{}, deniedOnce: map[[2]int]bool{}, faultsLeft: sc.Faults, frng: rand.New(rand.NewSource(sc.Seed ^ 0x5eed))}
 	s := r.s
 	if sc.Patience > 1 {
 		s.Watchdog *= time.Duration(sc.Patience)
@@ -283,7 +287,12 @@ func Execute(sc Scenario, pubs []*chain.Pub) (log []gate.Event, key, detail stri
 		actions.SetNextSyncCid(r.pub(p).Chain.Prev(c))
 		r.maybeNested(p)
 	}
-	opts := []dagsync.Option{dagsync.BlockHook(hook), dagsync.RecvAnnounce(""), dagsync.HttpTimeout(5 * time.Second)}
+	allow := func(p peer.ID) bool {
+		r.xmu.Lock()
+		defer r.xmu.Unlock()
+		return !r.denied[p]
+	}
+	opts := []dagsync.Option{dagsync.BlockHook(hook), dagsync.RecvAnnounce("", announce.WithAllowPeer(allow)), dagsync.HttpTimeout(5 * time.Second)}
 	if sc.Sem > 0 {
 		opts = append(opts, dagsync.MaxAsyncConcurrency(sc.Sem))
 	}
@@ -354,7 +363,11 @@ func Execute(sc Scenario, pubs []*chain.Pub) (log []gate.Event, key, detail stri
 				continue
 			}
 			if nextAd[p] < sc.Ads {
-				todo = append(todo, envAction{"ann", p + 1, nextAd[p] + 1})
+				if sc.Deny && !r.deniedOnce[[2]int{p + 1, nextAd[p] + 1}] {
+					todo = append(todo, envAction{"deny", p + 1, nextAd[p] + 1})
+				} else {
+					todo = append(todo, envAction{"ann", p + 1, nextAd[p] + 1})
+				}
 			}
 			r.fmu.Lock()
 			if nextAd[p] > 0 && r.failed[[2]int{p + 1, nextAd[p]}] {
@@ -458,6 +471,22 @@ func Execute(sc Scenario, pubs []*chain.Pub) (log []gate.Event, key, detail stri
 				s.Go("announce", func() {
 					err := r.sub.Announce(ctx, c, p.AddrInfo())
 					s.RecordG(gate.Event{Ev: "env.announce.ret", P: a.p, C: a.k, Err: err != nil})
+				})
+			case "deny":
+				// the head is announced while the allow filter refuses its publisher: the announcement is ignored, and it leaves
+				// nothing behind that would make the receiver drop the same head when it is announced again
+				p := pubs[a.p-1]
+				r.deniedOnce[[2]int{a.p, a.k}] = true
+				r.xmu.Lock()
+				r.denied[p.ID] = true
+				r.xmu.Unlock()
+				c := p.Chain.Cids[a.k]
+				s.Go("announce-denied", func() {
+					err := r.sub.Announce(ctx, c, p.AddrInfo())
+					r.xmu.Lock()
+					r.denied[p.ID] = false
+					r.xmu.Unlock()
+					s.RecordG(gate.Event{Ev: "env.announce.denied", P: a.p, C: a.k, Err: err != nil})
 				})
 			case "explicit":
 				expLeft[a.p-1]--
@@ -777,8 +806,12 @@ func Run(args []string) *rep.Report {
 		r.SetExtra("read_error", "nested publisher")
 		return r
 	}
-	var long *chain.Pub
+	var long, longer *chain.Pub
 	if *family == "stall" {
+		// one scenario in eight piles up more than 256 notifications
+		if ch, err := chain.Build("ads", 3**stallAds, "c14-longer"); err == nil {
+			longer, _ = chain.NewPub(ch, "c14-longer-pub", true)
+		}
 		ch, err := chain.Build("ads", *stallAds, "c14-long")
 		if err == nil {
 			long, err = chain.NewPub(ch, "c14-long-pub", true)
@@ -806,6 +839,8 @@ func Run(args []string) *rep.Report {
 			sc.Seg = 1 + (i/4)%2 // a quarter of the runs: segmented syncs (the notification's count covers every segment)
 		}
 		switch *family {
+		case "announce":
+			sc.Deny = i%3 == 1
 		case "mixed", "scoped":
 			sc.Explicit = 1
 			sc.XCancel = i%4 == 3
@@ -832,6 +867,9 @@ func Run(args []string) *rep.Report {
 			sc.Faults = (i / 3) % 2
 		case "stall":
 			sc.Pubs, sc.Ads, sc.Listeners = 1, len(long.Chain.Cids)-1, 1
+			if i%8 == 0 && longer != nil {
+				sc.Ads = len(longer.Chain.Cids) - 1
+			}
 		case "listeners":
 			sc.Listeners, sc.Cancels = 2+(i/2)%2, i%2
 			sc.Readers = i%4 >= 2 // half of the runs: stalled readers only; the others mix fast, slow and stalled readers
@@ -849,6 +887,9 @@ func Run(args []string) *rep.Report {
 		use := pubs[:sc.Pubs]
 		if *family == "stall" {
 			use = []*chain.Pub{long}
+			if sc.Ads > len(long.Chain.Cids)-1 {
+				use = []*chain.Pub{longer}
+			}
 		}
 		log, key, detail := Execute(sc, use)
 		r.Eval(true)
